@@ -45,6 +45,7 @@ type Term struct {
 	EscKind string      // "path" | "query"
 	QueryOf interface{} // encoded query strings: the url.Values they encode (*Map)
 	JSONOf  interface{} // text of an abstract JSON document (*JSON)
+	TimeOf *TimeKey   // strings produced by formatting a time: the instant (see intercepts_time.go)
 	FromI  *Term      // floats produced exactly from a (<= 32 bit) integer: that integer (KInt)
 	L      *lin       // KInt: linear normal form
 	text   string
@@ -489,6 +490,9 @@ func Eq(a, b *Term) *Term {
 			return Eq(b.Args[0], mkStr(""))
 		}
 	case KStr:
+		if a.TimeOf != nil && b.TimeOf != nil && a.TimeOf.Class == b.TimeOf.Class {
+			return timeKeyEq(a.TimeOf, b.TimeOf)
+		}
 		// escaping never turns a non-empty string into an empty one or vice versa
 		if a.EscOf != nil && b.Const && b.SVal == "" {
 			return Eq(a.EscOf, b)
@@ -695,6 +699,35 @@ func bvOfInt(i *Term, w int) *Term {
 
 // ---------- BV ----------
 
+// int2bvArg: x if t is (_ int2bv w)(x) (or a constant, read as its signed value).
+func int2bvArg(t *Term) (*Term, bool) {
+	if t.Const && t.K == KBV {
+		return mkInt(signExt(t.UVal, t.W)), true
+	}
+	if strings.HasPrefix(t.Op, "(_ int2bv") && len(t.Args) == 1 {
+		return t.Args[0], true
+	}
+	return nil, false
+}
+
+// int2bvEq: int2bv(x) = int2bv(y) over width w  <=>  x - y is a multiple of 2^w.
+func int2bvEq(a, b *Term) (*Term, bool) {
+	if a.Const && b.Const {
+		return nil, false
+	}
+	xa, oka := int2bvArg(a)
+	xb, okb := int2bvArg(b)
+	if !oka || !okb || a.W != b.W {
+		return nil, false
+	}
+	d := intSub(xa, xb)
+	if d.Const {
+		m := new(big.Int).Mod(d.IVal, new(big.Int).Lsh(big.NewInt(1), uint(a.W)))
+		return mkBool(m.Sign() == 0), true
+	}
+	return Eq(app("mod", KInt, 0, d, mkIntBig(new(big.Int).Lsh(big.NewInt(1), uint(a.W)))), mkInt(0)), true
+}
+
 func bvBin(op string, a, b *Term) *Term {
 	if a.W != b.W {
 		panic(fmt.Sprintf("bv width mismatch %s: %d vs %d", op, a.W, b.W))
@@ -753,6 +786,28 @@ func bvBin(op string, a, b *Term) *Term {
 				y = uint64(w - 1)
 			}
 			return mkBV(w, uint64(sx>>y))
+		}
+	}
+	// int2bv is a ring homomorphism onto the integers modulo 2^w: sums, differences and
+	// products of int2bv terms are int2bv terms (exactly, wrapping included)
+	if xa, oka := int2bvArg(a); oka {
+		if xb, okb := int2bvArg(b); okb && !(a.Const && b.Const) {
+			var i *Term
+			switch op {
+			case "bvadd":
+				i = intAdd(xa, xb)
+			case "bvsub":
+				i = intSub(xa, xb)
+			case "bvmul":
+				if xa.Const && xa.IVal.IsInt64() {
+					i = intMulC(xb, xa.IVal.Int64())
+				} else if xb.Const && xb.IVal.IsInt64() {
+					i = intMulC(xa, xb.IVal.Int64())
+				}
+			}
+			if i != nil {
+				return app(fmt.Sprintf("(_ int2bv %d)", w), KBV, w, i)
+			}
 		}
 	}
 	t := app(op, KBV, w, a, b)
